@@ -7,6 +7,7 @@ S5  property oracle: the property's own clauses evaluated on the Rust outputs
 """
 import math
 from vlib.common import *
+from vlib.fresh import up_to_date
 
 TOL = 1e-12
 WIDTH = ["Bartlett", "Blackman", "Connes", "Cosine", "Hamming", "Welch"]
@@ -422,11 +423,11 @@ def run(ctx):
         else:
             ctx.sample({"period_m": fh(o["period"]), "crystal_length_m": fh(o["L"]), "window": ap_plain(o["ap"]), "num_domains": o["n"],
                         "first_pair": [fh(x) for x in o["entries"][0]["e"]] if o["entries"] else None})
-    have_model = all(os.path.exists(os.path.join(COQ, p)) for p in ("Gen/Poling.vo", "Proofs/C19_tac.vo"))
-    if have_model:
+    if up_to_date("Gen/Poling.vo", "Proofs/C19_tac.vo"):
         correspondence(ctx, obs, "", max_win=300 if quick else 2500)
     else:
-        ctx.note("correspondence cases skipped: generated model or case tactics did not compile")
+        ctx.note("correspondence cases skipped: the generated model or the case tactics are not up to date with this run "
+                 "(a proof obligation upstream is broken; that obligation is the finding)")
     if (not proved or ctx.case_failures or any(not v["found_input"] for v in ctx.violations)) and not any(v["found_input"] for v in ctx.violations):
         ctx.log("S5 deep search for a failing input (proof obligations or correspondence are broken)")
         for k in range(3):
